@@ -12,5 +12,6 @@ Proof. vm_compute. reflexivity. Qed.
 Lemma record_ok :
   forallb record_row_ok record_table = true /\
   forallb todict_row_ok (filter is_params_row todict_table) = true /\
-  Nat.eqb (List.length (filter is_params_row todict_table)) 3 = true /\ Nat.eqb (List.length record_table) 2 = true.
+  Nat.eqb (List.length (filter is_params_row todict_table)) 3 = true /\ Nat.eqb (List.length record_table) 2 = true /\
+  compose_record_complete = true.
 Proof. vm_compute. repeat split; reflexivity. Qed.
